@@ -13,8 +13,10 @@ use crate::selector::{Selector, SelectorList};
 pub(crate) struct ExtendedSelector(Rc<RefCell<SelectorList>>);
 
 impl PartialEq for ExtendedSelector {
+    // identity, to agree with `Hash` below: two rules with equal selector lists are still
+    // two selectors that both have to be extended
     fn eq(&self, other: &Self) -> bool {
-        self.0 == other.0
+        Rc::ptr_eq(&self.0, &other.0)
     }
 }
 
